@@ -176,25 +176,52 @@ pub fn end_step(o: &mut Obs) {
 }
 
 // ---------------------------------------------------------------------------
-// id wakers: data pointer = id + 1 (never null), nothing allocated
+// id wakers: nothing allocated.  Waker ids 2k and 2k+1 share the DATA pointer (k + 1, never
+// null) and differ in their VTABLE, so that "same waker" is decided correctly only by code that
+// compares both, as `Waker::will_wake` does.
 
-fn vt_clone(p: *const ()) -> RawWaker {
-    RawWaker::new(p, &VTABLE)
-}
-fn vt_wake(p: *const ()) {
-    let id = p as usize as u64 - 1;
+fn log_wake(id: u64) {
     unarmed(|| WAKES.with(|w| w.borrow_mut().push(id)));
 }
+fn vt_clone_a(p: *const ()) -> RawWaker {
+    RawWaker::new(p, &VTABLE_A)
+}
+fn vt_clone_b(p: *const ()) -> RawWaker {
+    RawWaker::new(p, &VTABLE_B)
+}
+fn vt_wake_a(p: *const ()) {
+    log_wake(2 * (p as usize as u64 - 1));
+}
+fn vt_wake_b(p: *const ()) {
+    log_wake(2 * (p as usize as u64 - 1) + 1);
+}
 fn vt_drop(_p: *const ()) {}
-static VTABLE: RawWakerVTable = RawWakerVTable::new(vt_clone, vt_wake, vt_wake, vt_drop);
+static VTABLE_A: RawWakerVTable = RawWakerVTable::new(vt_clone_a, vt_wake_a, vt_wake_a, vt_drop);
+static VTABLE_B: RawWakerVTable = RawWakerVTable::new(vt_clone_b, vt_wake_b, vt_wake_b, vt_drop);
 
 pub fn waker(id: u64) -> Waker {
-    unsafe { Waker::from_raw(RawWaker::new((id + 1) as usize as *const (), &VTABLE)) }
+    let data = (id / 2 + 1) as usize as *const ();
+    let vt: &'static RawWakerVTable = if id % 2 == 0 { &VTABLE_A } else { &VTABLE_B };
+    unsafe { Waker::from_raw(RawWaker::new(data, vt)) }
 }
 
-/// Stored waker (as reported by the snapshot hook) -> `optN` encoding of the model.
-pub fn waker_code(data: usize) -> u64 {
-    data as u64 // data = id + 1, 0 = none
+fn vt_tag(vt: &'static RawWakerVTable) -> usize {
+    ((vt as *const RawWakerVTable as usize) & 0xffff_ffff) << 16
+}
+
+/// Stored waker as reported by the snapshot hook (data pointer + vtable tag, 0 = none) ->
+/// `optN` encoding of the model (id + 1).
+pub fn waker_code(code: usize) -> u64 {
+    if code == 0 {
+        return 0;
+    }
+    for (vt, b) in [(&VTABLE_A, 0u64), (&VTABLE_B, 1u64)] {
+        let d = code.wrapping_sub(vt_tag(vt));
+        if d >= 1 && d < 65536 {
+            return 2 * (d as u64 - 1) + b + 1;
+        }
+    }
+    7_000_000 + (code as u64 & 0xffff) // not one of the harness' wakers
 }
 
 // ---------------------------------------------------------------------------
